@@ -249,6 +249,17 @@ func (g *gen) snapshot(cfg chanobs.Config, b band.Band, ops []chanobs.Op) snap {
 		probes = append(probes, c)
 		probeTxt = append(probeTxt, t)
 	}
+	// GetRX1ChannelIndexForUplinkChannelIndex (mapping itself: C12): a negative index is an
+	// error, never a panic (/repo 789fde2, audit C15 #3); an index past the end is still
+	// answered (the package's own tests ask for channels that do not exist yet)
+	for _, i := range []int{-1, -n - 1, math.MinInt64, n, n + 1000, math.MaxInt64} {
+		k := chanobs.Call(func() error { _, err := b.GetRX1ChannelIndexForUplinkChannelIndex(i); return err })
+		if k == chanobs.KPanic || (i < 0 && k != chanobs.KErr) {
+			g.s.Fail(cases.GoFail{Key: fmt.Sprintf("rx1-index:%s:index=%d", cfg.Name, i),
+				What:   "GetRX1ChannelIndexForUplinkChannelIndex must report a negative index as an error and never panic",
+				Replay: map[string]interface{}{"band": cfg.String(), "history": chanobs.OpsStrings(ops), "index": i, "observed": chanobs.KindName(k)}})
+		}
+	}
 	if g.nbr {
 		p, t := g.neighbourProbes(cfg, b, upc, ops)
 		probes, probeTxt = append(probes, p...), append(probeTxt, t...)
